@@ -11,9 +11,14 @@ def judgeClient (inp impl : Json) : Verdict :=
   let cbs := natList (field impl "cbs")
   let hang := bool (field impl "hang")
   let pairOK := (rets.zip cbs).all (fun (r, c) => (r == "nil" && c == 1) || (r == "error" && c == 0))
-  let holds := !hang && pairOK && str (field impl "wait") != "hang" && !(bool (field impl "isRunning"))
+  let cbRunning := nat (field impl "cbRunning")
+  let runAtDone := bool (field impl "runAtDone")
+  let holds := !hang && pairOK && str (field impl "wait") != "hang" && !(bool (field impl "isRunning")) &&
+    cbRunning == 0 && !runAtDone
   { agree := holds, holds := holds, nontrivial := true, cls := "os:" ++ str (field inp "kind"),
-    why := if holds then "" else s!"real client process ({str (field inp "kind")}): sends {rets} callbacks {cbs} wait {str (field impl "wait")} hang {hang} isRunning {bool (field impl "isRunning")}" }
+    why := if holds then "" else
+      if !hang && pairOK && (cbRunning != 0 || runAtDone) then s!"real client process ({str (field inp "kind")}): isRunning() still true while the failure of the client's output stream was reported ({cbRunning} callback(s); after the reader had finished: {runAtDone}) — the process lingers"
+      else s!"real client process ({str (field inp "kind")}): sends {rets} callbacks {cbs} wait {str (field impl "wait")} hang {hang} isRunning {bool (field impl "isRunning")}" }
 
 /-- C11 / C05 with a real server process: the batch returns, every case has exactly one outcome,
 server faults are setup errors, and the process is gone when the batch returns. -/
